@@ -349,6 +349,51 @@ func (hs *serverHandshakeState) checkForResumption() bool {
 	if hs.suite == nil {
 		return false
 	}
+	// 会话重用不得绕过当前的客户端认证策略
+	if !hs.sessionSatisfiesClientAuth() {
+		return false
+	}
+	return true
+}
+
+// sessionSatisfiesClientAuth 判断会话中记录的客户端证书是否满足当前配置的客户端认证策略。
+// 会话可能在另一种（更宽松的）策略下建立，重用不得绕过当前策略：
+// 要求证书的策略需要会话带有证书；要求验证的策略按当前配置重新验证证书链、有效期与密钥用途。
+func (hs *serverHandshakeState) sessionSatisfiesClientAuth() bool {
+	c := hs.c
+	certs := hs.sessionState.peerCertificates
+	isECDHE := hs.suite.id == ECDHE_SM4_CBC_SM3 || hs.suite.id == ECDHE_SM4_GCM_SM3
+	if len(certs) == 0 {
+		return !requiresClientCert(c.config.ClientAuth) && !isECDHE
+	}
+	if isECDHE && len(certs) < 2 {
+		return false
+	}
+	if c.config.ClientAuth < VerifyClientCertIfGiven {
+		return true
+	}
+	keyUsages := []x509.ExtKeyUsage{x509.ExtKeyUsageClientAuth, x509.ExtKeyUsageServerAuth}
+	if c.config.ClientAuth == RequireAndVerifyAnyKeyUsageClientCert {
+		keyUsages = []x509.ExtKeyUsage{x509.ExtKeyUsageAny}
+	}
+	opts := x509.VerifyOptions{
+		Roots:         c.config.ClientCAs,
+		CurrentTime:   c.config.time(),
+		Intermediates: x509.NewCertPool(),
+		KeyUsages:     keyUsages,
+	}
+	start := 1
+	if isECDHE {
+		start = 2
+	}
+	for _, cert := range certs[start:] {
+		opts.Intermediates.AddCert(cert)
+	}
+	for _, cert := range certs[:start] {
+		if _, err := cert.Verify(opts); err != nil {
+			return false
+		}
+	}
 	return true
 }
 
